@@ -134,7 +134,15 @@ def run_job(job, rec):
             arg = s64.astype(np.float32)
             raw = arg.astype(np.float64)
         elif form == "int":
-            arg = np.round(s64 / (np.abs(s64).max() + 1e-300) * 50).astype(np.int64)
+            # integer-typed samples, in the narrow types such data come in, using most of the type's range
+            dt = [np.int64, np.int8, np.uint8, np.int16, np.uint16, np.int32][int(rng.integers(6))]
+            if dt is np.int64:
+                arg = np.round(s64 / (np.abs(s64).max() + 1e-300) * 50).astype(np.int64)
+            else:
+                ii = np.iinfo(dt)
+                z = (s64 - s64.min()) / max(s64.max() - s64.min(), 1e-300)
+                arg = np.rint(float(ii.min) + z * (float(ii.max) - float(ii.min))).astype(dt)
+            rec.count(f"forms:int:{np.dtype(dt).name}")
             raw = arg.astype(np.float64)
         elif form == "list":
             arg = [float(v) for v in s64]
